@@ -44,6 +44,20 @@ static uint32_t gen_val(void)
 	}
 }
 
+/* every call names the API function directly and passes argument expressions with observable
+ * side effects: an entry point implemented as a macro must evaluate each argument exactly once */
+static unsigned ev_p, ev_a;
+#define PKP (ev_p++, &pk)
+#define A(x) (ev_a++, (x))
+static void once(unsigned nargs, const char *fn)
+{
+	if (ev_p != 1 || ev_a != nargs)
+		sim_fail(NULL, "ARG_EVALUATION",
+			 "%s evaluated its pack-state argument %u time(s) and its %u other argument(s) %u time(s) in total",
+			 fn, ev_p, nargs, ev_a);
+	ev_p = ev_a = 0;
+}
+
 static const uint8_t pack_sz[K_NPACK] = { 0, 2, 2, 2, 4, 4 };
 static const uint8_t unpack_sz[U_NUNPACK] = { 0, 1, 1, 1, 2, 4 };
 
@@ -59,6 +73,7 @@ static void check_counters(rf_pack_t *pk, uint64_t cur, uint32_t B, const char *
 static void run(void)
 {
 	op_t ops[MAXOPS];
+	ev_p = ev_a = 0;
 	bool unpack_phase = sim_choose(3) == 2;	/* 0,1: pack then round trip; 2: unpack of noise */
 	uint32_t n = 1 + sim_choose(MAXOPS);
 	bool allow_huge = sim_chance(1, 6);
@@ -146,12 +161,12 @@ static void run(void)
 			}
 			sim_budget(100000);
 			switch (o->kind) {
-			case K_BYTES: rf_pack_bytes(&pk, src, o->sz); break;
-			case K_S16LE: rf_pack_s16le(&pk, (int16_t)o->val); break;
-			case K_U16BE: rf_pack_u16be(&pk, (uint16_t)o->val); break;
-			case K_U16LE: rf_pack_u16le(&pk, (uint16_t)o->val); break;
-			case K_S32LE: rf_pack_s32le(&pk, (int32_t)o->val); break;
-			case K_U32LE: rf_pack_u32le(&pk, o->val); break;
+			case K_BYTES: rf_pack_bytes(PKP, A(src), A(o->sz)); once(2, "rf_pack_bytes"); break;
+			case K_S16LE: rf_pack_s16le(PKP, A((int16_t)o->val)); once(1, "rf_pack_s16le"); break;
+			case K_U16BE: rf_pack_u16be(PKP, A((uint16_t)o->val)); once(1, "rf_pack_u16be"); break;
+			case K_U16LE: rf_pack_u16le(PKP, A((uint16_t)o->val)); once(1, "rf_pack_u16le"); break;
+			case K_S32LE: rf_pack_s32le(PKP, A((int32_t)o->val)); once(1, "rf_pack_s32le"); break;
+			case K_U32LE: rf_pack_u32le(PKP, A(o->val)); once(1, "rf_pack_u32le"); break;
 			}
 			sim_ops(1);
 			if (fits) {
@@ -218,7 +233,8 @@ static void run(void)
 			uint8_t *dst = null ? NULL : sim_alloc(sz);
 			if (dst)
 				memset(dst, 0xee, sz);
-			rf_unpack_bytes(&pk, dst, sz);
+			rf_unpack_bytes(PKP, A(dst), A(sz));
+			once(2, "rf_unpack_bytes");
 			sim_check_sanitizer();
 			if (dst) {
 				for (uint32_t b = 0; b < sz; b++) {
@@ -233,17 +249,18 @@ static void run(void)
 			}
 		} else {
 			switch (uk) {
-			case U_CHAR: got = (uint8_t)rf_unpack_char(&pk); want = fits ? m[0] : 0; break;
-			case U_S8: got = (uint32_t)(int32_t)rf_unpack_s8(&pk);
+			case U_CHAR: got = (uint8_t)rf_unpack_char(PKP); want = fits ? m[0] : 0; break;
+			case U_S8: got = (uint32_t)(int32_t)rf_unpack_s8(PKP);
 				want = fits ? (uint32_t)(int32_t)(int8_t)m[0] : 0; break;
-			case U_U8: got = rf_unpack_u8(&pk); want = fits ? m[0] : 0; break;
-			case U_U16LE: got = rf_unpack_u16le(&pk);
+			case U_U8: got = rf_unpack_u8(PKP); want = fits ? m[0] : 0; break;
+			case U_U16LE: got = rf_unpack_u16le(PKP);
 				want = fits ? (uint32_t)m[0] | (uint32_t)m[1] << 8 : 0; break;
-			case U_U32LE: got = rf_unpack_u32le(&pk);
+			case U_U32LE: got = rf_unpack_u32le(PKP);
 				want = fits ? (uint32_t)m[0] | (uint32_t)m[1] << 8 |
 					      (uint32_t)m[2] << 16 | (uint32_t)m[3] << 24 : 0; break;
 			}
 			sim_check_sanitizer();
+			once(0, "rf_unpack_<scalar>");
 			if (got != want)
 				sim_fail(NULL, fits ? "VALUE" : "STICKY_OR_PARTIAL",
 					 "unpack op %d (kind %d, %s): returned 0x%x expected 0x%x",
